@@ -125,6 +125,7 @@ type interpreter struct {
 	cborTypes    map[string]*atlasRec
 	handles      map[*value]iface
 	faultFn      value
+	concurrent   bool
 	preempts     int
 	idleWait     []*thread
 	stalled      []*thread
@@ -903,7 +904,7 @@ func (i *interpreter) addViolation(fr *frame, kind, label, msg string, model map
 	i.violations = append(i.violations, violation{
 		Label: label, Kind: kind, Msg: msg, Model: model,
 		Inputs: i.inputsFromModel(model), Decision: append([]dec(nil), i.taken...), Stack: st,
-		Events: append([]string(nil), i.events...), Sched: i.everExplored,
+		Events: append([]string(nil), i.events...), Sched: i.everExplored || i.concurrent,
 		Observed: append([]string(nil), i.observed...),
 	})
 }
